@@ -83,6 +83,7 @@ fn oracle(s: &ProgScene<X>, t: &Trace) -> Vec<Violation> {
                 // a consume whose stop was rejected returns early by design of `?`
                 let early_err = matches!(op, Op::Consume(_)) && matches!(o.res, Some(Res::Err(crate::world::ErrKind::Send)));
                 if !early_err {
+                    crate::check::oblige("join-after-termination");
                     joins_done += 1;
                     match term {
                         Some((tidx, _)) if end > tidx => {}
@@ -127,6 +128,12 @@ fn oracle(s: &ProgScene<X>, t: &Trace) -> Vec<Violation> {
             }
             _ => {}
         }
+    }
+    if graceful && joins_done > 0 {
+        crate::check::oblige("value-handed-out-once");
+    }
+    if !graceful && joins_done > 0 {
+        crate::check::oblige("none-on-failure");
     }
     if graceful && joins_done > 0 && somes != 1 {
         // exactly one of the completed joins gets the value
@@ -242,6 +249,7 @@ pub fn property() -> Property {
     Property {
         id: "C17",
         cases,
+        clauses: &["join-after-termination", "value-handed-out-once", "none-on-failure"],
         assumptions: &["consume_sync documents that a rejected stop is reported before any waiting; that early error is not held against it"],
     }
 }
